@@ -245,19 +245,23 @@ def check_hexdump_lines(rep, prog, rule, thorough=False):
     bad = None
     n = 0
     lengths = list(range(0, 50)) + ([63, 64, 65, 255, 256, 257] if thorough else [64, 65])
-    for ln in lengths:
-        for seed in (11, 0x20, 0x7E):
-            data = bytes((i * 37 + seed) % 256 for i in range(ln))
+    samples = [bytes((i * 37 + seed) % 256 for i in range(ln)) for ln in lengths for seed in (11, 0x20, 0x7E)]
+    # every printable character appears in the text column as itself - also those that mean something to a formatter
+    samples += [bytes(range(0x20, 0x7F)), b"100% %s %d {0} {} \\n%(x)s %%", bytes([0x25]), bytes([0x7B, 0x7D, 0x5C])]
+    for data in samples:
+            ln = len(data)
             try:
                 got = evaluate(r, pelx.with_heap(I, {DATA: data, Op("len", DATA): ln}))
             except CannotEval as e:
                 raise AnalysisError("hexdump summary not evaluable: %s" % e)
+            except (ValueError, TypeError, KeyError, IndexError) as e:
+                got = ["<raises %s: %s>" % (type(e).__name__, e)]
             n += 1
             if list(got) != ref(data) and bad is None:
                 bad = "%d bytes %s are dumped as %r, expected %r" % (ln, data.hex(), list(got)[-2:], ref(data)[-2:])
     rep.count("hexdump samples evaluated", n)
     rep.check(bad is None, rule, "hexdump() shows every byte of its input: offset, 16 bytes per line in 4-byte groups, printable column "
-              "(summary run on %d byte strings of length 0..65)" % n, HEXDUMP, "dump.append(...)", bad)
+              "(summary run on %d byte strings of length 0..95)" % n, HEXDUMP, "dump.append(...)", bad)
 
 
 def run(rep, prog, thorough):
@@ -269,5 +273,7 @@ def run(rep, prog, thorough):
     check_parse(rep, prog)
     check_fields(rep, prog)
     check_hexdump_lines(rep, prog, "C16.R2.hexdump", thorough)
+    from ..effects import check_text_decoding
+    check_text_decoding(rep, prog, "C16.R3.field-table", "io_drawer.hlog", "the history-log header file")
     from ..effects import check_no_memoised
     check_no_memoised(rep, prog, 'C16.R3.field-table', ['io_drawer', 'pel.hexdump'], 'the field table of an earlier decode is reused although the header file given now may differ')
